@@ -21,6 +21,7 @@
 EXTENDS Integers, Sequences, FiniteSets, TLC
 
 IvtLen   == 64          \* the first 64 bytes (vector table with the four ROM words) are what the HMAC covers
+MinLen   == 56          \* 0x38: the four ROM words end here - the smallest payload an image can have
 OffTotal == 32          \* 0x20 total image length
 OffFlags == 36          \* 0x24 image type and flags
 OffW28   == 40          \* 0x28 CRC value or offset of the certificate block
@@ -46,18 +47,24 @@ IvtOK(rom, s, e) ==
   /\ s.st = "Ivt" /\ e.rd
   /\ e.type = rom.type                                   \* the device boots this image type only
   /\ e.totalLen = e.fileLen                              \* the length word describes the bytes emitted
-  /\ e.fileLen >= IvtLen
+  /\ e.fileLen >= MinLen
   /\ e.tzType \in {0, 1, 2} /\ (e.tzType = 1 => rom.tz > 0)
   /\ (e.ks => rom.hmac)
   /\ (rom.cb # 0 => e.w28[1] < 16384)                     \* an offset, not a CRC value (also keeps Word() inside TLC's integers)
-  /\ IvtLen + Shift(rom, e.ks) + TzBytes(rom, e.tzType) <= e.fileLen
+  /\ (IF rom.hmac THEN IvtLen + Shift(rom, e.ks) ELSE MinLen) + TzBytes(rom, e.tzType) <= e.fileLen
 IvtNx(rom, s, e) ==
   [s EXCEPT !.h = e, !.st = IF rom.cb = 0 THEN "Crc" ELSE IF rom.hmac THEN "Hmac" ELSE "Cert"]
 
 (* ------------------------------------------------------------------ CRC images *)
+(* The ROM runs ONE pass over the image: no running value is special to it.  e.chain reports the class of the running  *)
+(* value at the offsets where a block-wise implementation may split its computation (0 = the final value); it is  *)
+(* the dimension the generator (MbiRomMC: Specials) drives through zero / all ones - the verdict never depends on it. *)
+ValueClasses == {"zero", "ones", "other"}
+ChainWF(e, end) == \A i \in 1..Len(e.chain) : e.chain[i][1] \in 0..end /\ e.chain[i][2] \in ValueClasses
 CrcOK(rom, s, e) ==
   /\ s.st = "Crc" /\ e.ok
   /\ e.frm = 0 /\ e.to = s.h.fileLen /\ e.skipAt = OffW28 /\ e.skipLen = 4      \* whole image, CRC word skipped
+  /\ ChainWF(e, s.h.fileLen)
 CrcNx(rom, s, e) == [s EXCEPT !.st = "Done", !.cov = {<<0, s.h.fileLen>>}, !.end = s.h.fileLen]
 
 (* ------------------------------------------------------------------ HMAC over the first 64 bytes *)
@@ -70,10 +77,18 @@ HmacNx(rom, s, e) ==
             !.cov = @ \cup {<<IvtLen, IvtLen + HmacLen>>},                         \* the MAC field is verified, not signed
             !.dc = IF s.h.ks THEN {<<IvtLen + HmacLen, IvtLen + HmacLen + KsLen>>} ELSE {}]   \* key store: device-bound blob
 
+(* ------------------------------------------------------------------ the unsettled corner *)
+(* A load-to-RAM image with HMAC whose payload ends before byte 64: the HMAC field (fixed at byte 64) lies INSIDE the *)
+(* certificate block.  The HMAC clause above is settled for it (first 64 bytes of the file, whatever they are); what *)
+(* the ROM does with a split block is not described anywhere offline, so the automaton stops in "Unsettled" - it    *)
+(* neither accepts nor rejects.  The clause is exact: any other image in state "Cert" has to show its block.         *)
+SplitOK(rom, s, e) == s.st = "Cert" /\ rom.hmac /\ Word(s.h.w28) < IvtLen /\ e.at = Word(s.h.w28)
+SplitNx(rom, s, e) == [s EXCEPT !.st = "Unsettled"]
+
 (* ------------------------------------------------------------------ certificate block v1 *)
 Cb1OK(rom, s, e) ==
   /\ s.st = "Cert" /\ rom.cb = 1 /\ e.rd /\ e.magicOk
-  /\ e.at = Word(s.h.w28) + s.shift /\ e.at % 4 = 0 /\ e.at >= IvtLen + s.shift
+  /\ e.at = Word(s.h.w28) + s.shift /\ e.at % 4 = 0 /\ e.at >= (IF rom.hmac THEN IvtLen ELSE MinLen) + s.shift
   /\ e.hdrLen = V1HdrLen /\ e.count \in 1..4 /\ e.tabLen > 0 /\ e.tabLen % 4 = 0
   /\ e.at + V1HdrLen + e.tabLen + RkhLen <= s.h.fileLen
 Cb1Nx(rom, s, e) == [s EXCEPT !.st = "CertV1", !.cb = e, !.cur = e.at + V1HdrLen, !.idx = 1]
@@ -118,12 +133,13 @@ DecOK(rom, s, e) ==
                  <<s.cbEnd + EncIvtLen + IvLen, Sig1At(rom, s)>> >>
   /\ e.appLen = Word(s.h.w28) /\ e.tzLen = TzBytes(rom, s.h.tzType)
   /\ e.plainLen = e.appLen + e.tzLen
+  /\ e.ivClass \in {"zero", "ones", "lo32ones", "lo64ones", "other"}     \* any counter start is good: 128-bit big-endian increment
 DecNx(rom, s, e) == [s EXCEPT !.st = "Done"]
 
 (* ------------------------------------------------------------------ certificate block v2.1 *)
 Cb21OK(rom, s, e) ==
   /\ s.st = "Cert" /\ rom.cb = 21 /\ e.rd /\ e.magicOk /\ e.verOk
-  /\ e.at = Word(s.h.w28) /\ e.at % 4 = 0 /\ e.at >= IvtLen
+  /\ e.at = Word(s.h.w28) /\ e.at % 4 = 0 /\ e.at >= MinLen
 Cb21Nx(rom, s, e) == [s EXCEPT !.st = "Rkr", !.cb = e]
 
 RkrOK(rom, s, e) ==
@@ -159,6 +175,7 @@ ManNx(rom, s, e) == [s EXCEPT !.man = e, !.cur = e.at + e.totalLen, !.st = IF ro
 ManCrcOK(rom, s, e) ==
   /\ s.st = "ManCrc" /\ e.ok
   /\ e.at = s.cur - 4 /\ e.frm = 0 /\ e.to = s.cur - 4
+  /\ ChainWF(e, s.cur - 4)
 ManCrcNx(rom, s, e) == [s EXCEPT !.st = "Sig21"]
 
 Sig21OK(rom, s, e) ==
